@@ -164,9 +164,21 @@ def _s1a(program, res):
                 for (n, st, field) in lst:
                     ok = False
                     for ks in key_stores:
-                        if g.postdominates(ks.id, n.id) or (g.dominates(n.id, ks.id) and _same_block(g, n, ks)):
+                        # the update may sit under `if <obj>.ops_key is not None:` — a step without a key ("never share") has no key to go stale
+                        own = [(b, lab) for (b, lab) in g.lexical_guards(ks) if (b, lab) not in g.lexical_guards(n)]
+                        only_key_guard = bool(own) and all(lab is True and unparse(b.cond).replace(" ", "") in (f"{obj}.ops_keyisnotNone", f"({obj}.ops_keyisnotNone)") for b, lab in own)
+                        guarded_follow = only_key_guard and all(g.postdominates(b.id, n.id) for b, _lab in own)
+                        if g.postdominates(ks.id, n.id) or (g.dominates(n.id, ks.id) and _same_block(g, n, ks)) or guarded_follow:
                             roots = d.roots_at(ks, ks.stmt.value)
-                            if depsmod.has_root(roots, f"{obj}.terms") or depsmod.has_root(roots, obj):
+                            # the new key has to reflect the new content: the step's terms, or the step being merged in (not only the old key)
+                            # (syntactically: the def-use roots of `<obj>.ops_key` already contain everything that was stored into <obj> before)
+                            mentions = set()
+                            for x in ast.walk(ks.stmt.value):
+                                if isinstance(x, ast.Attribute) and isinstance(x.value, ast.Name) and x.value.id == obj:
+                                    mentions.add(f"{obj}.{x.attr}")
+                                elif isinstance(x, ast.Name) and x.id != obj and x.id not in ("list", "str", "set", "sorted", "tuple", "repr"):
+                                    mentions.add(x.id)
+                            if (mentions - {f"{obj}.ops_key"}) and (depsmod.has_root(roots, f"{obj}.terms") or depsmod.has_root(roots, obj)):
                                 ok = True
                     if ok:
                         res.ok("C04-S1", f"{m.qualname}: redefinition `{unparse(st)[:60]}` is followed by a matching {obj}.ops_key update")
